@@ -27,6 +27,9 @@ Ok(r) ==
       [] r.ev = "drop_start" -> DropStartOk
       [] r.ev = "drop_done"  -> DropDoneOk
       [] r.ev = "quiesce"    -> QuiesceOk
+      \* user code in the destructor of a closure that never ran (abandoned / refused) spawned on the same scheduler:
+      \* the call has to terminate by returning (a refused spawn is not an error)
+      [] r.ev = "dropspawn"  -> r.ok
       [] r.ev \in {"reset", "scenario"} -> TRUE
       [] OTHER -> FALSE            \* hung, harness_panic, anything unknown
 
